@@ -31,13 +31,28 @@ def explore_and_export(src):
                     walk(tokens + [nm], depth + 1)
     walk([], 0)
     out, files, reported = tree.export(tree.open_image(src) if not isinstance(src, str) else src)
+    # what is written is bounded by what was read: every exported byte comes from the image (plus small headers)
+    if isinstance(src, str):
+        d = os.path.dirname(src)
+        in_bytes = sum(os.path.getsize(os.path.join(d, f)) for f in os.listdir(d) if os.path.isfile(os.path.join(d, f)))
+    else:
+        in_bytes = len(src)
+    out_bytes = sum(len(b) for b in files.values())
+    if out_bytes > 4 * in_bytes + (1 << 20):
+        raise OutputNotProportional(f"{out_bytes} bytes written for an input of {in_bytes} bytes")
     return f"ok:{n}nodes:{len(reported)}files"
+
+
+class OutputNotProportional(Exception):
+    pass
 
 
 def run_bytes(data):
     st, val = guarded(lambda: explore_and_export(data), CPU_BUDGET)
     if st == "ok":
         return True, val, None
+    if st == "exc" and isinstance(val, OutputNotProportional):
+        return False, "output-not-proportional", {"observed": str(val)}
     if st == "exc":
         return True, "error:" + type(val).__name__, None
     return False, "hang", {"observed": f"no result within {CPU_BUDGET} s CPU (or memory exhausted)"}
@@ -166,7 +181,7 @@ def all_faults(key, groups=None):
 
 # ----------------------------------------------------------------------------- cue
 CUE_REPL = ["garbage %% ", "  TRACK 05", "    INDEX 01 99:99:99", "    INDEX 01 00:00", 'FILE "other.bin" BINARY', "X" * 10000,
-            "  TRACK 99 AUDIO", "    INDEX 01 00:00:74"]
+            "  TRACK 99 AUDIO", "    INDEX 01 00:00:74", "    INDEX 01 04:00:00", "    INDEX 00 59:59:74"]
 
 
 CUE_FRAMES = [("", "\n\n", "\n"), ("", "\n\n\n\n", "\n"), ("", "\n \n", "\n"), ("", "\n\t\n", "\n"), ("", "", "\n"), ("", " ", "\n"),
@@ -430,14 +445,15 @@ class Check(CheckBase):
             "count, such a link); (Roland single faults) every "
             "used FAT word (+2 beyond) <- {free, reserved, error, end marks, every used cluster, itself, 7, 8, 65526, 65527, "
             "65535}, FAT id/version, the five ID-area counts, pointer-list entries of volume/performance/patch/partial, sample "
-            "fat_entry/type/loop points/loop mode/cluster_top/options; (cue) every line deleted / duplicated / replaced by 8 "
+            "fat_entry/type/loop points/loop mode/cluster_top/options; (cue) every line deleted / duplicated / replaced by 10 "
             "hostile lines and by 70 regular-expression stress lines (keyword + unterminated quote/number list + 40 x one character), "
             "bin missing or empty, 15 framings of the unchanged lines (leading / trailing blank and whitespace-only lines, no final "
             "newline, CR LF / bare CR, NUL, form feed, blank lines between all lines); (bigtext) 8 text files of 1-3 MB with 6 000 .. 1 500 000 short lines (comment, blank, TRACK/INDEX/TITLE, "
             "non-ASCII, CR LF); (containers) MDX header length field x 15 values (0 .. real+-1 .. 2^64-1) x 5 payloads, damaged MDX "
             "version, MDX cut in the middle, MODE1/2352 images cut at 10 odd lengths; thorough: ALL PAIRS of table faults (AKAI SAT x SAT, Roland FAT x FAT) and "
             "all pairs (table fault, pointer/entry fault). Every run = ls at the root and at every reachable node + export, "
-            "under an 8 s CPU budget (clean run: 0.03-0.3 s) and a 6 GiB address-space limit; (growth) 10 input families whose size "
+            "under an 8 s CPU budget (clean run: 0.03-0.3 s) and an address-space limit (min(6 GiB, 60 % of RAM / workers)), and the bytes "
+            "written by export must stay below 4 x the input size + 1 MiB; (growth) 10 input families whose size "
             "grows linearly with n (n CDDA tracks with one / distinct titles, n AKAI files with one / distinct names, n/2 L/R pairs, "
             "n volumes, one file of n sectors, n Roland samples with one / distinct names, 20n comment lines) run at n and 2n "
             "(n=60; thorough also 150) under a line counter: no function of the tool may execute more than 3x the lines at 2n "
